@@ -16,32 +16,35 @@ def State.app (s : State) (S : List Byte) : State := { s with inp := s.inp ++ S 
 @[simp] theorem app_hitEof (s : State) (S) : (s.app S).hitEof = s.hitEof := rfl
 @[simp] theorem app_status (s : State) (S) : (s.app S).status = s.status := rfl
 @[simp] theorem app_vars (s : State) (S) : (s.app S).vars = s.vars := rfl
+@[simp] theorem app_echo (s : State) (S) : (s.app S).echo = s.echo := rfl
+@[simp] theorem app_verbose (s : State) (S) : (s.app S).verbose = s.verbose := rfl
+@[simp] theorem app_aborted (s : State) (S) : (s.app S).aborted = s.aborted := rfl
 
-theorem execRead_app (s : State) (raw : Bool) (names : List String) (S : List Byte)
-    (h : (execRead s raw names).hitEof = false) :
-    execRead (s.app S) raw names = (execRead s raw names).app S := by
+theorem execRead_app (s : State) (d : Nat) (raw : Bool) (names : List String) (S : List Byte)
+    (h : (execRead s d raw names).hitEof = false) :
+    execRead (s.app S) d raw names = (execRead s d raw names).app S := by
   cases hsh : s.shared with
   | false =>
     simp [execRead, State.app, State.stdin, State.setStdin, hsh]
   | true =>
-    have hfound : (readLine raw s.inp []).2.1 = .found := by
+    have hfound : (readLine d raw s.inp []).2.1 = .found := by
       simp [execRead, State.stdin, State.setStdin, hsh] at h
       exact h.2
-    have hr := readLine_append raw s.inp S [] (readLine raw s.inp []).1 (readLine raw s.inp []).2.2
+    have hr := readLine_append raw s.inp S [] (readLine d raw s.inp []).1 (readLine d raw s.inp []).2.2
       (by rw [← hfound])
     obtain ⟨pre, hpre⟩ := readLine_suffix raw s.inp []
-    have hlen : s.inp.length = pre.length + (readLine raw s.inp []).2.2.length := by
+    have hlen : s.inp.length = pre.length + (readLine d raw s.inp []).2.2.length := by
       rw [← List.length_append, hpre]
     simp only [execRead, State.app, State.stdin, State.setStdin, hsh, if_true, hr]
-    have : (s.inp ++ S).length - ((readLine raw s.inp []).2.2 ++ S).length
-        = s.inp.length - (readLine raw s.inp []).2.2.length := by
+    have : (s.inp ++ S).length - ((readLine d raw s.inp []).2.2 ++ S).length
+        = s.inp.length - (readLine d raw s.inp []).2.2.length := by
       simp only [List.length_append]; omega
     simp [hfound]
     omega
 
-theorem execCat_app (s : State) (bodies : List (List Char)) (here : Option Nat) (S : List Byte)
-    (h : (execCat s bodies here).hitEof = false) :
-    execCat (s.app S) bodies here = (execCat s bodies here).app S := by
+theorem execCat_app (s : State) (here : Option (List Char)) (S : List Byte)
+    (h : (execCat s here).hitEof = false) :
+    execCat (s.app S) here = (execCat s here).app S := by
   cases here with
   | some k => simp [execCat, State.app]
   | none =>
@@ -67,9 +70,9 @@ theorem execUnalias_app (s : State) (args : List String) (S : List Byte) :
     execUnalias (s.app S) args = (execUnalias s args).app S := by
   unfold execUnalias; split <;> rfl
 
-theorem execSimple_app (s : State) (bodies : List (List Char)) (fields : List String)
-    (here : Option Nat) (S : List Byte) (h : (execSimple s bodies fields here).hitEof = false) :
-    execSimple (s.app S) bodies fields here = (execSimple s bodies fields here).app S := by
+theorem execSimple_app (s : State) (fields : List String)
+    (here : Option (List Char)) (S : List Byte) (h : (execSimple s fields here).hitEof = false) :
+    execSimple (s.app S) fields here = (execSimple s fields here).app S := by
   cases fields with
   | nil => rfl
   | cons name args =>
@@ -80,105 +83,151 @@ theorem execSimple_app (s : State) (bodies : List (List Char)) (fields : List St
     | aliasName => rfl
     | st => rfl
     | colon => rfl
-    | read =>
-      simp only [execUtil] at h ⊢
-      split
-      · rename_i hr; simp only [hr, if_true] at h; exact execRead_app _ _ _ _ h
-      · rename_i hr; simp only [hr] at h; exact execRead_app _ _ _ _ h
+    | read => exact execRead_app _ _ _ _ _ h
     | alias => exact execAlias_app _ _ _
     | unalias => exact execUnalias_app _ _ _
     | set => exact execSet_app _ _ _
-    | cat => exact execCat_app _ _ _ _ h
+    | cat => exact execCat_app _ _ _ h
     | unknown => rfl
 
 /-! ### `hitEof` is sticky, standard output only grows -/
 
-/-- `t` extends `s`: same or more output, and an end of input once seen stays seen -/
-def Grows (s t : State) : Prop := (∃ o, t.out = o ++ s.out) ∧ (s.hitEof = true → t.hitEof = true)
+/-- `t` extends `s`: same or more output and verbose echo, and an end of input once seen stays seen -/
+def Grows (s t : State) : Prop :=
+  (∃ o, t.out = o ++ s.out) ∧ (s.hitEof = true → t.hitEof = true) ∧ (∃ e, t.echo = s.echo ++ e)
 
-theorem Grows.refl (s : State) : Grows s s := ⟨⟨[], rfl⟩, id⟩
+theorem Grows.refl (s : State) : Grows s s := ⟨⟨[], rfl⟩, id, ⟨[], by simp⟩⟩
 
 theorem Grows.trans {a b c : State} (h1 : Grows a b) (h2 : Grows b c) : Grows a c := by
-  obtain ⟨⟨o1, e1⟩, k1⟩ := h1
-  obtain ⟨⟨o2, e2⟩, k2⟩ := h2
-  exact ⟨⟨o2 ++ o1, by rw [e2, e1, List.append_assoc]⟩, fun h => k2 (k1 h)⟩
+  obtain ⟨⟨o1, e1⟩, k1, ⟨x1, y1⟩⟩ := h1
+  obtain ⟨⟨o2, e2⟩, k2, ⟨x2, y2⟩⟩ := h2
+  exact ⟨⟨o2 ++ o1, by rw [e2, e1, List.append_assoc]⟩, fun h => k2 (k1 h),
+    ⟨x1 ++ x2, by rw [y2, y1, List.append_assoc]⟩⟩
 
-theorem grows_of_eq {s t : State} (ho : t.out = s.out) (he : t.hitEof = s.hitEof) : Grows s t :=
-  ⟨⟨[], by simp [ho]⟩, by rw [he]; exact id⟩
+theorem grows_of_eq {s t : State} (ho : t.out = s.out) (he : t.hitEof = s.hitEof)
+    (hc : t.echo = s.echo) : Grows s t :=
+  ⟨⟨[], by simp [ho]⟩, by rw [he]; exact id, ⟨[], by simp [hc]⟩⟩
 
 theorem setOption_grows (s : State) (o : String) (on : Bool) : Grows s (setOption s o on) := by
   unfold setOption; split
-  · exact grows_of_eq rfl rfl
-  · split <;> exact grows_of_eq rfl rfl
+  · exact grows_of_eq rfl rfl rfl
+  · split <;> exact grows_of_eq rfl rfl rfl
 
-theorem execRead_grows (s : State) (raw : Bool) (names : List String) :
-    Grows s (execRead s raw names) := by
-  refine ⟨⟨[], ?_⟩, ?_⟩
+theorem execRead_grows (s : State) (d : Nat) (raw : Bool) (names : List String) :
+    Grows s (execRead s d raw names) := by
+  refine ⟨⟨[], ?_⟩, ?_, ⟨[], ?_⟩⟩
   · cases hsh : s.shared <;> simp [execRead, State.setStdin, hsh]
   · intro h; cases hsh : s.shared <;> simp [execRead, State.setStdin, hsh, h]
+  · cases hsh : s.shared <;> simp [execRead, State.setStdin, hsh]
 
-theorem execCat_grows (s : State) (bodies : List (List Char)) (here : Option Nat) :
-    Grows s (execCat s bodies here) := by
+theorem execCat_grows (s : State) (here : Option (List Char)) :
+    Grows s (execCat s here) := by
   cases here with
-  | some k => exact ⟨⟨_, rfl⟩, id⟩
+  | some k => exact ⟨⟨_, rfl⟩, id, ⟨[], by simp [execCat]⟩⟩
   | none =>
-    refine ⟨⟨(outLines (s.stdin.length + 1) s.stdin).reverse, ?_⟩, ?_⟩
+    refine ⟨⟨(outLines (s.stdin.length + 1) s.stdin).reverse, ?_⟩, ?_, ⟨[], ?_⟩⟩
     · cases hsh : s.shared <;> simp [execCat, State.setStdin, hsh]
     · intro h; cases hsh : s.shared <;> simp [execCat, State.setStdin, hsh, h]
+    · cases hsh : s.shared <;> simp [execCat, State.setStdin, hsh]
 
-theorem execSimple_grows (s : State) (bodies : List (List Char)) (fields : List String)
-    (here : Option Nat) : Grows s (execSimple s bodies fields here) := by
+theorem execSimple_grows (s : State) (fields : List String)
+    (here : Option (List Char)) : Grows s (execSimple s fields here) := by
   cases fields with
-  | nil => exact grows_of_eq rfl rfl
+  | nil => exact grows_of_eq rfl rfl rfl
   | cons name args =>
     simp only [execSimple]
     generalize classify name = u
     cases u with
-    | probe => exact ⟨⟨[_], rfl⟩, id⟩
-    | aliasName => exact ⟨⟨[_], rfl⟩, id⟩
-    | st => exact grows_of_eq rfl rfl
-    | colon => exact grows_of_eq rfl rfl
-    | read => simp only [execUtil]; split <;> exact execRead_grows _ _ _
-    | alias => simp only [execUtil, execAlias]; split <;> exact grows_of_eq rfl rfl
-    | unalias => simp only [execUtil, execUnalias]; split <;> exact grows_of_eq rfl rfl
+    | probe => exact ⟨⟨[_], rfl⟩, id, ⟨[], by simp [execUtil]⟩⟩
+    | aliasName => exact ⟨⟨[_], rfl⟩, id, ⟨[], by simp [execUtil]⟩⟩
+    | st => exact grows_of_eq rfl rfl rfl
+    | colon => exact grows_of_eq rfl rfl rfl
+    | read => exact execRead_grows _ _ _ _
+    | alias => simp only [execUtil, execAlias]; split <;> exact grows_of_eq rfl rfl rfl
+    | unalias => simp only [execUtil, execUnalias]; split <;> exact grows_of_eq rfl rfl rfl
     | set =>
       simp only [execUtil, execSet]
-      split <;> first | exact setOption_grows _ _ _ | exact grows_of_eq rfl rfl
-    | cat => exact execCat_grows _ _ _
-    | unknown => exact grows_of_eq rfl rfl
+      split <;> first | exact setOption_grows _ _ _ | exact grows_of_eq rfl rfl rfl
+    | cat => exact execCat_grows _ _
+    | unknown => exact grows_of_eq rfl rfl rfl
 
 /-! ### `step`, `runK` -/
 
-theorem step_grows (bodies : List (List Char)) (k k' : List K) (s s' : State)
-    (h : step bodies k s = some (k', s')) : Grows s s' := by
-  unfold step at h
-  split at h
-  all_goals (try (simp only [Option.some.injEq, Prod.mk.injEq] at h))
-  · exact absurd h (by simp)
-  · rw [← h.2]; exact execSimple_grows _ _ _ _
-  · rw [← h.2]; exact Grows.refl _
-  · split at h
-    · simp only [Option.some.injEq, Prod.mk.injEq] at h; rw [← h.2]; exact Grows.refl _
-    · split at h <;> (simp only [Option.some.injEq, Prod.mk.injEq] at h; rw [← h.2])
-      · exact Grows.refl _
-      · exact grows_of_eq rfl rfl
-  · rw [← h.2]; exact Grows.refl _
-  · split at h <;> (simp only [Option.some.injEq, Prod.mk.injEq] at h; rw [← h.2]; exact Grows.refl _)
-  · rw [← h.2]; exact Grows.refl _
-  · split at h <;> (simp only [Option.some.injEq, Prod.mk.injEq] at h; rw [← h.2])
-    · exact Grows.refl _
-    · exact grows_of_eq rfl rfl
-  · rw [← h.2]; exact Grows.refl _
-  · rw [← h.2]; exact Grows.refl _
-  · rw [← h.2]; exact Grows.refl _
-  · rw [← h.2]; exact grows_of_eq rfl rfl
-  · rw [← h.2]; exact Grows.refl _
-  · rw [← h.2]; exact grows_of_eq rfl rfl
+theorem stepSimple_grows (ws : List Word) (here : Option (List Char)) (k : List K) (s : State) :
+    Grows s (stepSimple ws here k s).2 := by
+  unfold stepSimple; split
+  · exact Grows.refl _
+  · exact execSimple_grows _ _ _
 
-theorem step_app_gen (bodies : List (List Char)) (k : List K) (s : State) (S : List Byte)
+theorem stepSrc_grows (text : List Byte) (echoes executed : Bool) (k : List K) (s : State) :
+    Grows s (stepSrc text echoes executed k s).2 := by
+  unfold stepSrc
+  split <;> refine ⟨⟨[], by simp⟩, fun h => by simpa using h, ?_⟩ <;>
+    (simp only []; split <;> first | exact ⟨_, rfl⟩ | exact ⟨[], by simp⟩)
+
+theorem step_grows (k k' : List K) (s s' : State)
+    (h : step k s = some (k', s')) : Grows s s' := by
+  cases k with
+  | nil => simp [step] at h
+  | cons a k0 =>
+    cases a with
+    | cmd c =>
+      cases c with
+      | simple ws here =>
+        simp only [step, Option.some.injEq] at h
+        have := stepSimple_grows ws here k0 s; rw [h] at this; exact this
+      | ifc c t e he => simp only [step, Option.some.injEq, Prod.mk.injEq] at h; rw [← h.2]; exact Grows.refl _
+      | loop u c b => simp only [step, Option.some.injEq, Prod.mk.injEq] at h; rw [← h.2]; exact Grows.refl _
+      | group b => simp only [step, Option.some.injEq, Prod.mk.injEq] at h; rw [← h.2]; exact Grows.refl _
+      | subsh b => simp only [step, Option.some.injEq, Prod.mk.injEq] at h; rw [← h.2]; exact Grows.refl _
+      | andor l a r => simp only [step, Option.some.injEq, Prod.mk.injEq] at h; rw [← h.2]; exact Grows.refl _
+      | neg c => simp only [step, Option.some.injEq, Prod.mk.injEq] at h; rw [← h.2]; exact Grows.refl _
+    | branch t e he =>
+      simp only [step] at h
+      split at h
+      · simp only [Option.some.injEq, Prod.mk.injEq] at h; rw [← h.2]; exact Grows.refl _
+      · split at h <;> (simp only [Option.some.injEq, Prod.mk.injEq] at h; rw [← h.2])
+        · exact Grows.refl _
+        · exact grows_of_eq rfl rfl rfl
+    | andK a r =>
+      simp only [step] at h
+      split at h <;> (simp only [Option.some.injEq, Prod.mk.injEq] at h; rw [← h.2]; exact Grows.refl _)
+    | loopTest u c b l =>
+      simp only [step] at h
+      split at h <;> (simp only [Option.some.injEq, Prod.mk.injEq] at h; rw [← h.2])
+      · exact Grows.refl _
+      · exact grows_of_eq rfl rfl rfl
+    | loopBack u c b => simp only [step, Option.some.injEq, Prod.mk.injEq] at h; rw [← h.2]; exact Grows.refl _
+    | restore sv => simp only [step, Option.some.injEq, Prod.mk.injEq] at h; rw [← h.2]; exact grows_of_eq rfl rfl rfl
+    | negK => simp only [step, Option.some.injEq, Prod.mk.injEq] at h; rw [← h.2]; exact grows_of_eq rfl rfl rfl
+    | src t e x =>
+      simp only [step, Option.some.injEq] at h
+      have := stepSrc_grows t e x k0 s; rw [h] at this; exact this
+
+theorem stepSimple_app (ws : List Word) (here : Option (List Char)) (k : List K) (s : State)
+    (S : List Byte) (h : (stepSimple ws here k s).2.hitEof = false) :
+    stepSimple ws here k (s.app S) = ((stepSimple ws here k s).1, (stepSimple ws here k s).2.app S) := by
+  unfold stepSimple at h ⊢
+  simp only [app_vars, app_status]
+  cases hn : nested (expandWords s.vars s.status ws) with
+  | some r => rfl
+  | none =>
+    simp only [hn] at h ⊢
+    rw [execSimple_app _ _ _ _ h]
+
+theorem stepSrc_app (text : List Byte) (echoes executed : Bool) (k : List K) (s : State)
+    (S : List Byte) :
+    stepSrc text echoes executed k (s.app S)
+      = ((stepSrc text echoes executed k s).1, (stepSrc text echoes executed k s).2.app S) := by
+  have hp : parserOf (s.app S) = parserOf s := rfl
+  unfold stepSrc
+  simp only [hp]
+  split <;> rfl
+
+theorem step_app_gen (k : List K) (s : State) (S : List Byte)
     (h : ∀ ws here k0, k = .cmd (.simple ws here) :: k0 →
-      (execSimple s bodies (expandWords s.vars s.status ws) here).hitEof = false) :
-    step bodies k (s.app S) = (step bodies k s).map (fun r => (r.1, r.2.app S)) := by
+      (stepSimple ws here k0 s).2.hitEof = false) :
+    step k (s.app S) = (step k s).map (fun r => (r.1, r.2.app S)) := by
   cases k with
   | nil => rfl
   | cons a k0 =>
@@ -186,8 +235,8 @@ theorem step_app_gen (bodies : List (List Char)) (k : List K) (s : State) (S : L
     | cmd c =>
       cases c with
       | simple ws here =>
-        simp only [step, app_vars, app_status, Option.map]
-        rw [execSimple_app _ _ _ _ _ (h ws here k0 rfl)]
+        simp only [step, Option.map]
+        rw [stepSimple_app _ _ _ _ _ (h ws here k0 rfl)]
       | ifc c t e he => rfl
       | loop u c b => rfl
       | group b => rfl
@@ -205,54 +254,57 @@ theorem step_app_gen (bodies : List (List Char)) (k : List K) (s : State) (S : L
     | loopBack u c b => rfl
     | restore sv => rfl
     | negK => rfl
+    | src t e x =>
+      simp only [step, Option.map]
+      rw [stepSrc_app]
 
-theorem step_app (bodies : List (List Char)) (k k' : List K) (s s' : State) (S : List Byte)
-    (h : step bodies k s = some (k', s')) (he : s'.hitEof = false) :
-    step bodies k (s.app S) = some (k', s'.app S) := by
+theorem step_app (k k' : List K) (s s' : State) (S : List Byte)
+    (h : step k s = some (k', s')) (he : s'.hitEof = false) :
+    step k (s.app S) = some (k', s'.app S) := by
   rw [step_app_gen, h]
   · rfl
   · intro ws here k0 hk
     subst hk
-    simp only [step, Option.some.injEq, Prod.mk.injEq] at h
-    rw [h.2]; exact he
+    simp only [step, Option.some.injEq] at h
+    rw [h]; exact he
 
-theorem step_none_app (bodies : List (List Char)) (k : List K) (s : State) (S : List Byte)
-    (h : step bodies k s = none) : step bodies k (s.app S) = none := by
+theorem step_none_app (k : List K) (s : State) (S : List Byte)
+    (h : step k s = none) : step k (s.app S) = none := by
   rw [step_app_gen, h]
   · rfl
   · intro ws here k0 hk
     subst hk
     simp [step] at h
 
-theorem runK_grows (bodies : List (List Char)) (n : Nat) (k : List K) (s : State) :
-    Grows s (runK bodies n k s).1 := by
+theorem runK_grows (n : Nat) (k : List K) (s : State) :
+    Grows s (runK n k s).1 := by
   induction n generalizing k s with
   | zero => exact Grows.refl _
   | succ n ih =>
     simp only [runK]
-    cases hst : step bodies k s with
+    cases hst : step k s with
     | none => exact Grows.refl _
     | some r =>
       obtain ⟨k', s'⟩ := r
-      exact (step_grows _ _ _ _ _ hst).trans (ih k' s')
+      exact (step_grows _ _ _ _ hst).trans (ih k' s')
 
-theorem runK_app (bodies : List (List Char)) (n : Nat) (k : List K) (s : State) (S : List Byte)
-    (he : (runK bodies n k s).1.hitEof = false) :
-    runK bodies n k (s.app S) = ((runK bodies n k s).1.app S, (runK bodies n k s).2) := by
+theorem runK_app (n : Nat) (k : List K) (s : State) (S : List Byte)
+    (he : (runK n k s).1.hitEof = false) :
+    runK n k (s.app S) = ((runK n k s).1.app S, (runK n k s).2) := by
   induction n generalizing k s with
   | zero => rfl
   | succ n ih =>
     simp only [runK] at he ⊢
-    cases hst : step bodies k s with
-    | none => rw [step_none_app _ _ _ _ hst]
+    cases hst : step k s with
+    | none => rw [step_none_app _ _ _ hst]
     | some r =>
       obtain ⟨k', s'⟩ := r
       simp only [hst] at he
       have hs' : s'.hitEof = false := by
         cases hh : s'.hitEof with
         | false => rfl
-        | true => rw [(runK_grows bodies n k' s').2 hh] at he; exact absurd he (by simp)
-      rw [step_app _ _ _ _ _ S hst hs']
+        | true => rw [(runK_grows n k' s').2.1 hh] at he; exact absurd he (by simp)
+      rw [step_app _ _ _ _ S hst hs']
       exact ih k' s' he
 
 end YashModel.Input
